@@ -4,8 +4,11 @@
 //! sockets with real-time timers, so packet arrival order, pacing and timer races are NOT owned by
 //! the harness.  What is enumerated exhaustively is the program / configuration space (part A: the
 //! grid) and every close point (part B: close after the k-th harness-visible event for every k,
-//! with one future of every kind pending).
+//! with one future of every kind pending), plus (part D, `partd.rs`) every row of the grid of
+//! credit bursts (several parked `open_*_wait` futures, several credits in one update) and of
+//! single API calls issued on an idle connection.
 mod model;
+mod partd;
 mod scen;
 
 use std::{
@@ -17,6 +20,7 @@ use std::{
 };
 
 use model::*;
+use partd::DSpec;
 use scen::{RunResult, run_once};
 use vcore::{Report, Tier, Value, Violation, json};
 
@@ -95,11 +99,47 @@ fn close_rows(tier: Tier) -> Vec<Row> {
     rows
 }
 
+/// a run of parts A / B / C or of part D
+#[derive(Clone)]
+enum AnySpec {
+    Main(RunSpec),
+    D(DSpec),
+}
+
+impl AnySpec {
+    fn json(&self) -> Value {
+        match self {
+            AnySpec::Main(s) => s.json(),
+            AnySpec::D(s) => s.json(),
+        }
+    }
+
+    fn from_json(v: &Value) -> AnySpec {
+        if v["part"].as_str() == Some("D") { AnySpec::D(DSpec::from_json(v)) } else { AnySpec::Main(RunSpec::from_json(v)) }
+    }
+
+    fn run(&self) -> RunResult {
+        match self {
+            AnySpec::Main(s) => run_once(s),
+            AnySpec::D(s) => partd::run_once(s),
+        }
+    }
+
+    /// violations of parts A / B / D (part C is a separate, possibly known, finding)
+    fn main_part(&self) -> bool {
+        match self {
+            AnySpec::Main(s) => s.pre == Pre::Nothing,
+            AnySpec::D(_) => true,
+        }
+    }
+}
+
 struct Agg {
     counters: Mutex<BTreeMap<String, u64>>,
     runs_a: AtomicU64,
     runs_b: AtomicU64,
     runs_c: AtomicU64,
+    runs_d: AtomicU64,
     reruns: AtomicU64,
     unreproduced: Mutex<Vec<Value>>,
     side: Mutex<BTreeMap<String, (String, u64)>>,
@@ -108,7 +148,7 @@ struct Agg {
     max_ms: AtomicU64,
 }
 
-fn absorb(report: &Report, agg: &Agg, spec: &RunSpec, r: &RunResult) {
+fn absorb(report: &Report, agg: &Agg, spec: &AnySpec, r: &RunResult) {
     report.add_execution(r.events);
     for o in &r.outcomes {
         report.outcome(o.clone());
@@ -127,7 +167,7 @@ fn absorb(report: &Report, agg: &Agg, spec: &RunSpec, r: &RunResult) {
         g.entry(class.clone()).or_insert_with(|| (what.clone(), 0)).1 += 1;
     }
     for (key, what) in &r.problems {
-        if spec.pre == Pre::Nothing {
+        if spec.main_part() {
             agg.ab_violations.fetch_add(1, Ordering::Relaxed);
         }
         report.violation(Violation { key: key.clone(), what: format!("{what}; last events: {}", r.log_tail.iter().rev().take(10).rev().cloned().collect::<Vec<_>>().join(" | ")), replay: spec.json() });
@@ -136,15 +176,19 @@ fn absorb(report: &Report, agg: &Agg, spec: &RunSpec, r: &RunResult) {
 
 /// Runs one spec; a watchdog expiry has to reproduce in a second run before it is reported.
 fn run_checked(report: &Report, agg: &Agg, spec: &RunSpec) -> RunResult {
-    let r = run_once(spec);
+    run_checked_any(report, agg, &AnySpec::Main(spec.clone()))
+}
+
+fn run_checked_any(report: &Report, agg: &Agg, spec: &AnySpec) -> RunResult {
+    let r = spec.run();
     absorb(report, agg, spec, &r);
     if let Some((key, what)) = &r.hang {
         agg.reruns.fetch_add(1, Ordering::Relaxed);
-        let r2 = run_once(spec);
+        let r2 = spec.run();
         absorb(report, agg, spec, &r2);
         match &r2.hang {
             Some((key2, what2)) => {
-                if spec.pre == Pre::Nothing {
+                if spec.main_part() {
                     agg.ab_violations.fetch_add(1, Ordering::Relaxed);
                 }
                 report.violation(Violation {
@@ -192,12 +236,12 @@ fn main() {
     if let Some(path) = &args.replay {
         let bytes = std::fs::read(path).unwrap_or_else(|e| vcore::machinery_error(&format!("cannot read {path:?}: {e}")));
         let v: Value = vcore::serde_json::from_slice(&bytes).unwrap_or_else(|e| vcore::machinery_error(&format!("replay does not parse: {e}")));
-        let spec = RunSpec::from_json(if v["replay"].is_object() { &v["replay"] } else { &v });
+        let spec = AnySpec::from_json(if v["replay"].is_object() { &v["replay"] } else { &v });
         let mut bad = false;
         let reps: usize = std::env::var("C16_REPEAT").ok().and_then(|s| s.parse().ok()).unwrap_or(3);
         let quiet = reps > 3;
         for i in 0..reps {
-            let r = run_once(&spec);
+            let r = spec.run();
             if quiet {
                 if r.hang.is_some() || !r.problems.is_empty() {
                     bad = true;
@@ -231,6 +275,7 @@ fn main() {
         runs_a: AtomicU64::new(0),
         runs_b: AtomicU64::new(0),
         runs_c: AtomicU64::new(0),
+        runs_d: AtomicU64::new(0),
         reruns: AtomicU64::new(0),
         unreproduced: Mutex::new(Vec::new()),
         side: Mutex::new(BTreeMap::new()),
@@ -244,8 +289,11 @@ fn main() {
     // the schedule is not owned: the thorough tier samples every grid row twice per driver
     let reps_a: usize = tier.pick(1, 2);
 
+    // development aid: C16_ONLY_D=1 runs part D alone (the evidence says so, the vacuity guard of the
+    // other parts is not applied)
+    let only_d = std::env::var("C16_ONLY_D").is_ok_and(|v| v == "1");
     // ---- part A: the grid -------------------------------------------------------------------
-    let rows = grid_rows(tier);
+    let rows = if only_d { Vec::new() } else { grid_rows(tier) };
     let mut items_a: Vec<RunSpec> = Vec::new();
     for _ in 0..reps_a {
         for &driver in drivers {
@@ -274,7 +322,10 @@ fn main() {
         }
     }
     // ---- part B: close points ---------------------------------------------------------------
-    let crow = close_rows(tier);
+    let crow = if only_d { Vec::new() } else { close_rows(tier) };
+    if only_d {
+        items_c.clear();
+    }
     // reference runs: number of harness-visible events of the un-closed run (per driver)
     // part B runs on io_uring only (the poll driver is sampled by part A of the thorough tier)
     let drivers_b: &[Drv] = &[Drv::Uring];
@@ -304,16 +355,42 @@ fn main() {
     // part C runs ride along (a stranded run costs its watchdog twice, in parallel with part B)
     let n_b = items.len();
     items.extend(items_c.iter().cloned());
+    let mut items: Vec<AnySpec> = items.into_iter().map(AnySpec::Main).collect();
+    // ---- part D: credit bursts and actions on an idle connection (rides along as well: its runs
+    // mostly wait for the connection to become quiet) ------------------------------------------
+    let rows_d = partd::rows(tier);
+    let settles: &[u64] = tier.pick(&[50], &[50, 300]);
+    let reps_d: usize = tier.pick(1, 2);
+    let mut n_d = 0usize;
+    for _ in 0..reps_d {
+        for &driver in drivers {
+            for &settle_ms in settles {
+                for plan in &rows_d {
+                    items.push(AnySpec::D(DSpec { plan: plan.clone(), driver, settle_ms }));
+                    n_d += 1;
+                }
+            }
+        }
+    }
     // interleave long and short rows
     let stride = 7919usize;
     let n_items = items.len();
     let order: Vec<usize> = if n_items > 0 && n_items % stride != 0 { (0..n_items).map(|j| (j * stride) % n_items).collect() } else { (0..n_items).collect() };
     vcore::par_for_each_n(&order, threads_b, |j, &idx| {
         let spec = &items[idx];
-        let r = run_checked(&report, &agg, spec);
-        if spec.close.is_some() { &agg.runs_b } else { &agg.runs_c }.fetch_add(1, Ordering::Relaxed);
-        if j % 1501 == 0 && spec.close.is_some() {
-            report.sample(12, || json!({"part": "B", "spec": spec.json(), "events": r.events, "outcomes": r.outcomes, "wall_ms": r.wall_ms}));
+        let r = run_checked_any(&report, &agg, spec);
+        match spec {
+            AnySpec::Main(m) => {
+                if m.close.is_some() { &agg.runs_b } else { &agg.runs_c }.fetch_add(1, Ordering::Relaxed);
+                if j % 1501 == 0 && m.close.is_some() {
+                    report.sample(12, || json!({"part": "B", "spec": spec.json(), "events": r.events, "outcomes": r.outcomes, "wall_ms": r.wall_ms}));
+                }
+            }
+            AnySpec::D(_) => {
+                if agg.runs_d.fetch_add(1, Ordering::Relaxed) % 37 == 0 {
+                    report.sample(18, || json!({"part": "D", "spec": spec.json(), "steps": r.events, "outcomes": r.outcomes, "wall_ms": r.wall_ms, "log": r.log_tail}));
+                }
+            }
         }
     });
 
@@ -355,6 +432,33 @@ fn main() {
         must.push(format!("pending_at_close:{kind}"));
         must.push(format!("resolved_after_close:{kind}"));
     }
+    if only_d {
+        must.clear();
+        report.cap_hit("C16_ONLY_D=1: parts A, B and C were not run (development aid, not a registered command)");
+    }
+    // part D
+    let mut must_d: Vec<String> = [
+        "idle_reached",
+        "idle_observer_parked",
+        "idle_observers_resolved",
+        "idle_stream_announced_by_the_action",
+        "burst_waiters_parked",
+        "burst_credit_by_set_max_resolved",
+        "burst_partial_raise_left_waiters_parked",
+        "burst_second_raise_resolved_rest",
+        "burst_closes_read_in_one_turn",
+        "burst_credit_by_closes_resolved",
+    ]
+    .iter()
+    .map(|s| s.to_string())
+    .collect();
+    for a in partd::Action::ALL {
+        must_d.push(format!("idle_action:{}", a.name()));
+    }
+    for k in must_d {
+        report.must_reach(&k);
+        must.push(k);
+    }
     // vcore treats must-reach events of a non-exhaustive run as notes; this check is declared
     // non-exhaustive on principle (exploration level), so the vacuity guard is enforced here
     // (unless parts A / B already found violations: then runs legitimately end early)
@@ -363,7 +467,7 @@ fn main() {
         vcore::machinery_error(&format!("vacuous exploration: never reached {missing:?}"));
     }
     report.rule(
-        "EXPLORATION, not exhaustive schedule coverage. Enumerated exhaustively: (A) every row of the configuration grid in `bounds.grid` (one real execution per row: two compio-quic endpoints in one compio runtime over loopback UDP), (B) for every row of `bounds.close_rows`, close kind and closing side: the close injected synchronously inside the k-th harness-visible event (completed write/read/open/accept/finish/stopped/datagram operation) for EVERY k from 0 to the event count of the un-closed reference run, with one hand-polled future of every kind pending on both sides, each with its own waker, (C) a dropped / a duplicated Connection::closed() future before the scenario for the rows of `bounds.closed_future_rows`. NOT enumerated: packet arrival order, pacing, loss, timers (real UDP sockets, real time) - one sample per enumerated point. evaluations = real executions; distinct_nontrivial = distinct observation classes (grid outcome classes, results of pending futures per close kind / side / future kind, errors seen by scenario operations after a close).",
+        "EXPLORATION, not exhaustive schedule coverage. Enumerated exhaustively: (A) every row of the configuration grid in `bounds.grid` (one real execution per row: two compio-quic endpoints in one compio runtime over loopback UDP), (B) for every row of `bounds.close_rows`, close kind and closing side: the close injected synchronously inside the k-th harness-visible event (completed write/read/open/accept/finish/stopped/datagram operation) for EVERY k from 0 to the event count of the un-closed reference run, with one hand-polled future of every kind pending on both sides, each with its own waker, (C) a dropped / a duplicated Connection::closed() future before the scenario for the rows of `bounds.closed_future_rows`, (D) every row of `bounds.idle_and_burst`: (D1) with the stream-count limit exhausted, n open_uni_wait / open_bi_wait futures parked, each hand-polled with its own waker, the peer grants credits in ONE update (set_max_concurrent_*_streams raising the limit by 1, by 2, by n; the rest in a second update; then n credits coming back from n finished streams that the peer reads to the end in one scheduler turn): every parked future for which a credit exists has to resolve (and no more than that), the streams obtained carry position-coded data; (D2) one API call that queues something for transmission (finish, AsyncWrite::shutdown, drop of a SendStream, reset, a late write, stop, drop of a RecvStream, send_datagram, send_datagram_wait; set_max_concurrent_*_streams in D1) issued alone in a later scheduler turn than all other traffic, after the UDP counters of both connections had been unchanged for the settle period: the peer's parked observer future (own waker) has to see exactly the expected effect (end-of-stream twice / reset code / the byte / stop code and a Stopped write error / the datagram; stopped() == None on the finishing side) within the watchdog, without any unrelated traffic. NOT enumerated: packet arrival order, pacing, loss, timers (real UDP sockets, real time) - one sample per enumerated point. evaluations = real executions; distinct_nontrivial = distinct observation classes (grid outcome classes, results of pending futures per close kind / side / future kind, errors seen by scenario operations after a close, part D: number of waiters served by the first raise, observer results per action / stream kind).",
     );
     report.assume("packet-level interleavings, loss, reordering and timer races are not controlled: compio-quic runs quinn-proto over real UDP sockets with real-time timers; each enumerated configuration / close point is executed once (a watchdog expiry is re-run once and reported only if it reproduces)");
     report.assume("the connection state machine is quinn-proto's (a dependency); the check observes compio-quic's public API only");
@@ -371,6 +475,9 @@ fn main() {
     report.assume("loopback UDP between two sockets of the same process; datagram loss is legal and only counted");
     report.assume("the futures that wait for the drain period (Connection::closed, Endpoint::shutdown) are watched with a deadline that follows the measured round-trip time (5 s + 40 x smoothed rtt); a close run whose rtt estimate exceeds 50 ms (overloaded machine) does not wait for the drain period at all (counter drain_wait_skipped_inflated_rtt); a blocked `write` is pending at the close point only in the small-window rows");
     report.assume("the peer of the closing side learns about the close from a CONNECTION_CLOSE packet over real UDP: its futures are expected to resolve within the watchdog, an expiry that does not reproduce is listed under unreproduced_watchdog_expiries and not reported");
+    report.assume("part D: 'idle' is observed, not owned: the UDP datagram counters (Connection::stats) of both sides unchanged for the settle period (bounded by 3 s, otherwise the run goes on and counts idle_not_reached); on an overloaded machine a delayed acknowledgement may still be outstanding, which can only hide a missing wake-up of the connection worker, never produce a report");
+    report.assume("part D: a missing effect is reported only if the watchdog expiry reproduces in a second run; the cause class in the key (not-transmitted: the UDP transmit counter of the acting side did not move after the call / lost-wake-up: a poll without wake-up resolves the future / credit-missing, not-delivered) is diagnosis, the verdict is the expiry; an application datagram that was transmitted but not received is legal loss (counter idle_datagram_lost)");
+    report.assume("part D1: quinn-proto announces a raised stream limit only when the increase exceeds 1/8 of the limit; the rows keep limit + waiters below 8 so that every increase is announced at once; whether the n credits of the stream closes arrive in one MAX_STREAMS frame or several is not owned (the oracle does not depend on it; counter burst_closes_read_in_one_turn says how often all n reads completed in the same turn)");
     report.extra(
         "not_covered",
         json!([
@@ -421,6 +528,33 @@ fn main() {
                 "runs": items_c.len(),
                 "run_limit_s": scen::PART_C_LIMIT.as_secs(),
             },
+            "idle_and_burst": {
+                "what": "part D, see partd.rs",
+                "burst_rows": {
+                    "parked_waiters": tier.pick(vec![2, 3], vec![2, 3, 5]),
+                    "direction": ["uni", "bi"],
+                    "first_raise": ["1", "2", "number of waiters"],
+                    "side_that_waits": ["cli", "srv"],
+                    "initial_limit": partd::BURST_LIMIT,
+                    "credit_sources": ["set_max_concurrent_*_streams on the idle peer (first raise, then the rest)", "the peer reads n finished streams to the end (and finishes its halves) in one scheduler turn"],
+                    "rows": rows_d.iter().filter(|p| matches!(p, partd::DPlan::Burst { .. })).count(),
+                },
+                "idle_rows": {
+                    "action": partd::Action::ALL.iter().map(|a| a.name()).collect::<Vec<_>>(),
+                    "stream_kind": ["uni", "bi (actions on the opener's send half / the acceptor's receive half; the other direction stays open)", "none (datagram actions)"],
+                    "payload_written_and_read_before_the_idle_period": tier.pick(vec![0, 1, 1200], vec![0, 1, 1200, 70000]),
+                    "datagram_size": [0, 1, "min(1200, max_datagram_size)"],
+                    "side_that_opens_and_writes": ["cli", "srv"],
+                    "excluded": "stop / drop-recv-stream with payload 0 (the reader has no handle of a stream nothing was sent on)",
+                    "rows": rows_d.iter().filter(|p| matches!(p, partd::DPlan::Idle { .. })).count(),
+                },
+                "settle_ms": settles,
+                "drivers": drivers.iter().map(|d| d.name()).collect::<Vec<_>>(),
+                "samples_per_row_driver_and_settle": reps_d,
+                "runs": n_d,
+                "quiet_limit_s": partd::QUIET_LIMIT.as_secs(),
+                "auxiliary_step_limit_s": partd::STEP_LIMIT.as_secs(),
+            },
             "watchdog_s": scen::WATCHDOG.as_secs(),
             "threads": [threads_a, threads_b],
         }),
@@ -431,6 +565,7 @@ fn main() {
             "grid_runs": agg.runs_a.load(Ordering::Relaxed),
             "close_runs": agg.runs_b.load(Ordering::Relaxed),
             "closed_future_runs": agg.runs_c.load(Ordering::Relaxed),
+            "idle_and_burst_runs": agg.runs_d.load(Ordering::Relaxed),
             "reference_runs": ref_items.len(),
             "reruns_after_watchdog": agg.reruns.load(Ordering::Relaxed),
             "grid_wall_s": t_a,
